@@ -42,6 +42,8 @@ VALUE_SHAPES = {
     'auto-list': {'__obj__': 'Auto1', 'kwargs': {'a': [1, [2, 'x']], 'b': 2}},
     'auto-dict': {'__obj__': 'Auto1', 'kwargs': {'a': {'k1': 1, 'k2': 2}}},
     'auto-set': {'__obj__': 'AutoSet', 'kwargs': {'items': ['x', 'y', 'zz']}},
+    # raw argument stored privately, a processed form (depends on what the placeholder was replaced by) exposed publicly
+    'auto-raw': {'__obj__': 'AutoRaw', 'kwargs': {'path': '{DIR}/vocab'}},
     'hand': {'__obj__': 'Hand1', 'args': [['h', 1]]},
     'plain-args': {'__obj__': 'Plain1', 'args': [1, 'b']},
     'plain-kwargs': {'__obj__': 'Plain1', 'kwargs': {'a': 1, 'b': 2}},
@@ -60,7 +62,7 @@ def bases(tier):
         if name == 'mount2':
             d['context'] = worlds.apply_variant(families.mount2(), 'v12')['context']
         out.append(d)
-    shapes = list(VALUE_SHAPES) if tier != 'quick' else ['nested', 'placeholder', 'auto-list', 'auto-dict', 'auto-set', 'plain-kwargs', 'auto-default', 'auto-in-list']
+    shapes = list(VALUE_SHAPES) if tier != 'quick' else ['nested', 'placeholder', 'auto-list', 'auto-dict', 'auto-set', 'auto-raw', 'plain-kwargs', 'auto-default', 'auto-in-list']
     for s in shapes:
         out.append(pvals(VALUE_SHAPES[s], s))
     return out
@@ -521,6 +523,26 @@ def run(tier, seed):
         per[b['name']] = {'depth': d_, 'nodes': res.coverage['states'] - before}
     res.coverage['per_base'] = per
     process_leg(bs, res, seed)
+    # task classes with module-derived groups spread over two modules: the location of each task is the same for every order in
+    # which the classes are declared or first touched in the process
+    from tcv import modgroups, scratch
+    mroot = scratch.fresh('c02mg')
+    seen = {}
+    for order, touch in modgroups.cases():
+        res.add('evaluations')
+        res.add('transitions')
+        try:
+            got = modgroups.observe(mroot, order, touch)
+        except Exception as e:  # noqa
+            res.violations.append(Violation('module groups: chain cannot be built', f'{order} {touch}: {type(e).__name__}: {e}', {'kind': 'module-groups', 'order': list(order), 'touch': list(touch)}))
+            continue
+        for name, g in got.items():
+            first = seen.setdefault(name, (g[2], order, touch))
+            if first[0] != g[2]:
+                res.violations.append(Violation('module groups: storage location depends on the order in which task classes are declared / first used',
+                                                f'{name}: {first[0]} (order {first[1]}, touched first {first[2]}) vs {g[2]} (order {order}, touched first {touch})',
+                                                {'kind': 'module-groups', 'order': list(order), 'touch': list(touch)}))
+    scratch.drop(mroot)
     res.coverage['traces_validated_against_impl'] = res.coverage['evaluations']
     res.coverage['exhaustive'] = True
     res.coverage['rule'] = (f'BFS over the rewrite graph of {len(REWRITINGS)} computation-preserving rewritings from each base configuration (compositions up to the per-base depth), invariant on every edge: '
@@ -535,6 +557,13 @@ def replay(case):
     import tcv
 
     tcv.quiet_library()
+    if case.get('kind') == 'module-groups':
+        from tcv import modgroups, scratch
+        mroot = scratch.fresh('c02mg')
+        ref = modgroups.observe(mroot, modgroups.ORDERS[0], ())
+        got = modgroups.observe(mroot, tuple(case['order']), tuple(case['touch']))
+        return [Violation('module groups: storage location depends on the order in which task classes are declared / first used', f'{n}: {ref[n][2]} vs {g[2]}', case)
+                for n, g in got.items() if n in ref and ref[n][2] != g[2]]
     base = next(b for b in bases('thorough') if b['name'] == case['base'])
     if 'seeds' in case:
         res = Result()
